@@ -28,7 +28,8 @@ from ..core import Raw
 
 def est_cfgs(tier):
     out = []
-    nx = (16, 64) if tier == "quick" else (16, 64, 256)
+    # 68 = 4 x 17 and 208 = 16 x 13 have a prime factor > 11 (not 'FFT-friendly' lengths)
+    nx = (16, 64, 68) if tier == "quick" else (16, 64, 68, 208, 256)
     for nall, nref in ((1, 1), (2, 1), (3, 2)) if tier == "quick" else ((1, 1), (2, 1), (2, 2), (3, 2), (4, 3), (4, 4)):
         for nxseg in nx:
             for pov4 in (0, 1, 2, 3):
@@ -116,7 +117,10 @@ def check_config(col, t, rng):
     X1, X2 = rng.standard_normal((nall, n)), rng.standard_normal((nall, n))
     R1, R2 = rng.standard_normal((nref, n)), rng.standard_normal((nref, n))
     col.count()
-    _, S11 = sd(X1, R1, c)
+    f11, S11 = sd(X1, R1, c)
+    if list(np.asarray(S11).shape) != list(out["shape"]) or len(f11) != out["shape"][2]:
+        col.violation(f"{site}/shape", f"{site}: Sy has shape {np.asarray(S11).shape} / {len(f11)} lines, expected {out['shape']}; {c}", rep)
+        return
     sc = np.abs(S11).max()
     # scaling with the square of a common gain, bilinearity
     for g in (-3.0, 1e-3, 250.0):
